@@ -336,6 +336,42 @@ def faults_at(block, text, toks, i, kind):
         if i < n and block.kind == "label" and block.label_kind in ("guard", "invariant") and is_use(block, toks, i):
             out.append((splice(toks[i][2], toks[i][3], "(%s + zi++)" % toks[i][1]), {}))
     elif kind == "unterminated-comment":
+        # the comment must really stay open: later comment ends (of the layout) are broken up
         pos = toks[i][2] if i < n else len(text)
-        out.append((splice(pos, pos, "/* "), {"off": pos}))
+        out.append((text[:pos] + "/* " + text[pos:].replace("*/", "* /"), {"off": pos}))
+    return out
+
+
+# ---------------------------------------------------------------------------------------------------------------------
+# structural faults: errors the reader attributes to elements (dummy one-character positions, <name> texts, references)
+# ---------------------------------------------------------------------------------------------------------------------
+
+def structural_variants(m, xml):
+    """(description, xml) variants of a rendered seed whose diagnostics are attached to elements rather than to block texts"""
+    out = []
+
+    def rep(desc, old, new, count=1):
+        if old in xml:
+            out.append((desc, xml.replace(old, new, count)))
+
+    t0 = m["templates"][0]
+    l0, l1 = t0["locations"][0], t0["locations"][1]
+    rep("duplicate-location-id", 'id="%s"' % l1["id"], 'id="%s"' % l0["id"])
+    if l0.get("name") and l1.get("name"):
+        rep("duplicate-location-name", "<name>%s</name>" % l1["name"], "<name>%s</name>" % l0["name"])
+        rep("keyword-location-name", "<name>%s</name>" % l1["name"], "<name>clock</name>")
+        rep("invalid-location-name", "<name>%s</name>" % l1["name"], "<name>two words</name>")
+    rep("keyword-template-name", "<name>%s</name>" % t0["name"], "<name>int</name>")
+    rep("empty-template-name", "<name>%s</name>" % t0["name"], "<name>1abc</name>")
+    if len(m["templates"]) > 1:
+        rep("duplicate-template-name", "<name>%s</name>" % m["templates"][1]["name"], "<name>%s</name>" % t0["name"])
+    rep("missing-init", '<init ref="%s"/>' % t0["init"], "")
+    rep("blank-system", "<system>%s</system>" % esc(m["system"]), "<system>  \n </system>")
+    rep("empty-system", "<system>%s</system>" % esc(m["system"]), "<system></system>")
+    rep("no-system", "<system>%s</system>" % esc(m["system"]), "")
+    rep("urgent-and-committed", "</location>", "<urgent/><committed/></location>")
+    rep("unknown-element", "<template>", "<template><frobnicate a=\"1\"><x/></frobnicate>")
+    rep("two-invariants", "</location>", '<label kind="invariant">zi &lt; 9</label></location>')
+    rep("comment-node-in-block", "<declaration>", "<declaration><!-- xml comment -->")
+    rep("cdata-block", "<system>%s</system>" % esc(m["system"]), "<system><![CDATA[%s zzq1]]></system>" % m["system"].replace(";", ","))
     return out
